@@ -17,7 +17,7 @@ func init() {
 		ID:      "C10",
 		Modules: []string{"v2"},
 		Explanation: "Static totality clauses for the v2 API: (R10.1) every first/last/constant-position index or slice expression in v2 and v2/assets (NonEmpty obligations) is discharged by a dominating length guard, by construction, or by an audited provenance rule; " +
-			"(R10.2) every explicit panic and every regexp.MustCompile reachable from Match/MatchFrom/Normalize/AddContent is audited (MustCompile only on constants); (R10.3) every cycle of the tokenizer's read loop passes through the reader call and the end-of-input branch leaves the loop; (R10.4) the quadratic word diff is never run with go-diff's deadline switched off; (R10.5) every integer division by a run-time value is dominated by a test that excludes a zero divisor; (R10.6) no loop of the library accumulates a string by repeated concatenation (each step copies everything accumulated so far: quadratic in the length of a line or document). " +
+			"(R10.2) every explicit panic and every regexp.MustCompile reachable from Match/MatchFrom/Normalize/AddContent is audited (MustCompile only on constants); (R10.3) every cycle of the tokenizer's read loop passes through the reader call and the end-of-input branch leaves the loop; (R10.4) the quadratic word diff is never run with go-diff's deadline switched off; (R10.5) every integer division by a run-time value is dominated by a test that excludes a zero divisor; (R10.7) the methods that build a lazily built part of a document assign it on every path, and match builds the input's search set whenever the loop that reads it can run; (R10.6) no loop of the library accumulates a string by repeated concatenation (each step copies everything accumulated so far: quadratic in the length of a line or document). " +
 			"Decides these structural necessary conditions for all inputs; does not decide index arithmetic with non-constant indices nor termination of the numeric loops.",
 		Run: runC10,
 	})
@@ -65,6 +65,8 @@ func runC10(c *Ctx) {
 	checkIntDivisions(c, p, fns)
 	// R10.6 no quadratic string accumulation
 	checkStringAccumulation(c, p, fns)
+	// R10.7 lazily built parts of a document exist wherever they are used
+	checkDocumentPartsBuilt(c, p)
 	// R01.2 (shared): the run detector uses the clamped q of the source search set (loop bounds depend on it)
 	checkRunDetectorQ(c, p)
 
@@ -348,4 +350,127 @@ func checkStringAccumulation(c *Ctx, p *core.Prog, fns []*ssa.Function) {
 	}
 	c.R.Count("R10.6:loop-carried string values examined", n)
 	c.R.OK("R10.6", "no loop of the library accumulates a string by concatenation", "-", fmt.Sprintf("%d loop-carried string values examined", n))
+}
+
+// checkDocumentPartsBuilt: R10.7. A document's frequency table and search set are built by dedicated methods and used
+// through pointer fields that are nil before. (a) Each such builder assigns its field on every path (no early return for
+// an "empty" document: the users dereference the field unconditionally). (b) In match, the input's search set is
+// read inside the loop over the first-pass documents; the call that builds it is unconditional or guarded by exactly
+// "the first pass is not empty" - the condition under which that loop runs - and by nothing more.
+func checkDocumentPartsBuilt(c *Ctx, p *core.Prog) {
+	r := rolesOf(p)
+	if !r.ok || r.docType == nil {
+		return
+	}
+	// (a)
+	nB := 0
+	var builders []*ssa.Function
+	for _, fn := range v2Funcs(p) {
+		if fn.Signature.Results().Len() != 0 || len(fn.Params) == 0 {
+			continue
+		}
+		pt, ok := fn.Params[0].Type().(*types.Pointer)
+		if !ok || !(types.Identical(pt.Elem(), r.docType) || types.Identical(pt, r.docType)) {
+			continue
+		}
+		// stores of a freshly built object (a call result) into a pointer field of the receiver
+		var stores []*ssa.Store
+		for _, b := range fn.Blocks {
+			for _, in := range b.Instrs {
+				st, ok := in.(*ssa.Store)
+				if !ok {
+					continue
+				}
+				fa, ok := st.Addr.(*ssa.FieldAddr)
+				if !ok || fa.X != ssa.Value(fn.Params[0]) {
+					continue
+				}
+				if _, isPtr := st.Val.Type().Underlying().(*types.Pointer); !isPtr {
+					continue
+				}
+				if _, isCall := st.Val.(*ssa.Call); isCall {
+					stores = append(stores, st)
+				}
+			}
+		}
+		if len(stores) == 0 {
+			continue
+		}
+		nB++
+		builders = append(builders, fn)
+		okAll := true
+		for _, b := range fn.Blocks {
+			if _, isRet := b.Instrs[len(b.Instrs)-1].(*ssa.Return); !isRet {
+				continue
+			}
+			dom := false
+			for _, st := range stores {
+				if st.Block().Dominates(b) {
+					dom = true
+				}
+			}
+			if !dom {
+				okAll = false
+			}
+		}
+		c.R.Check(okAll, "R10.7", core.ShortFn(fn)+": the part of the document it builds is assigned on every path", p.Pos(fn.Pos()), "the store into the receiver's field dominates every return",
+			"a path returns without building the part (e.g. for a document without tokens): the field stays nil and the functions that use it dereference it unconditionally - adding or matching a wordless document panics")
+	}
+	c.R.RequireMin("R10.7", "methods that build a part of a document", nB, 2)
+	// (b)
+	m := p.Func(v2pkg, "(*Classifier).match")
+	if m == nil {
+		return
+	}
+	for _, call := range core.CallsIn(m) {
+		cal := call.Common().StaticCallee()
+		isBuilder := false
+		for _, bf := range builders {
+			if bf == cal {
+				isBuilder = true
+			}
+		}
+		if !isBuilder {
+			continue
+		}
+		// the conditions the call is control dependent on
+		tcd := core.NewPostDom(m).TransitiveControlDeps()
+		bad := ""
+		for db := range tcd[call.Block()] {
+			ifi, ok := db.Instrs[len(db.Instrs)-1].(*ssa.If)
+			if !ok {
+				continue
+			}
+			// allowed: the tokenizer's error test (returns before), and len(map) > 0 of a map that is ranged over afterwards
+			if bo, isBo := ifi.Cond.(*ssa.BinOp); isBo {
+				if cst, isNil := bo.Y.(*ssa.Const); isNil && cst.Value == nil && bo.X.Type().String() == "error" {
+					continue
+				}
+				if lc, isCall := bo.X.(*ssa.Call); isCall && bo.Op == token.GTR {
+					if bi, isB := lc.Call.Value.(*ssa.Builtin); isB && bi.Name() == "len" {
+						if k, isK := core.ConstInt(bo.Y); isK && k == 0 {
+							if _, isMap := lc.Call.Args[0].Type().Underlying().(*types.Map); isMap && rangedOver(m, lc.Call.Args[0]) {
+								continue
+							}
+						}
+					}
+				}
+			}
+			bad = p.Pos(ifi.Cond.Pos())
+		}
+		c.R.Check(bad == "", "R10.7", "match: the input's "+cal.Name()+" runs whenever the loop that uses its result can run", p.Pos(call.Pos()), "unconditional, or guarded only by `the first pass is not empty`",
+			"the builder call also depends on the condition at "+bad+": the loop over the first-pass documents reads the part unconditionally, so on the inputs for which the condition is false (short inputs) it dereferences nil")
+	}
+}
+
+// rangedOver: the map value is the operand of a range statement of fn.
+func rangedOver(fn *ssa.Function, m ssa.Value) bool {
+	for _, b := range fn.Blocks {
+		for _, in := range b.Instrs {
+			if r, ok := in.(*ssa.Range); ok && r.X == m {
+				return true
+			}
+		}
+	}
+	return false
 }
